@@ -48,10 +48,17 @@ class LitGen:
         bits = self.pick([8, 15, 16, 17, 31, 32, 33, 48, 63, 64])
         return self.rng.getrandbits(bits)
 
-    def int_literal(self):
+    def int_literal(self, window=False):
         v = self.int_value()
         suf = self.pick(SUFFIXES)
         base = self.pick(['dec', 'dec', 'hex', 'hex', 'oct', 'bin' if self.cxx else 'hex'])
+        if window:
+            # the type of an unsuffixed / l-suffixed literal depends on its base exactly when the value fits the
+            # unsigned but not the signed type of some rank: pick the value from such a window, in every base
+            bits = self.pick([16, 32, 32, 64, 64])
+            v = (1 << (bits - 1)) | self.rng.getrandbits(bits - 1) if self.chance(0.6) else (1 << bits) - 1 - self.rng.randint(0, 2)
+            suf = self.pick(['', '', '', 'l', 'L', 'll'])
+            base = self.pick(['dec', 'hex', 'oct', 'bin' if self.cxx else 'hex', 'bin' if self.cxx else 'oct'])
         if 'octal' in self.excl and base == 'oct':
             base = 'dec'
         if base == 'dec':
@@ -180,6 +187,15 @@ class LitGen:
 
     def leaf(self):
         r = self.rng.random()
+        if r < 0.12:
+            # type-revealing context: the literal's type (not only its value) decides the result of ~ and of a
+            # comparison against a negative int
+            x = self.int_literal(window=True)
+            if 'compare' in self.excl or self.chance(0.55):
+                return Node('pre', op='~', ch=[x], prec=P_UNARY, cat='I')
+            m1 = Node('pre', op='~', ch=[Node('leaf', txt='0', cat='I', flags=('lit', 'int', 'dec'))], prec=P_UNARY, cat='I')
+            op = self.pick(['<', '>', '<=', '>='])
+            return Node('bin', op=op, ch=[m1, x] if self.chance(0.5) else [x, m1], prec=BINPREC[op], cat='I')
         if r < 0.5:
             return self.int_literal()
         if r < 0.68:
@@ -292,6 +308,12 @@ class LitGen:
         r = self.rng.random()
         if r < 0.8:
             e = self.ice(self.pick([0, 0, 1, 1, 2, 2, 3, 4]))
+            if 0.72 < r:
+                # `~literal` as the whole initialiser or as the operand of a widening cast: the result shows the width
+                # and signedness the analyzer gave the literal
+                e = Node('pre', op='~', ch=[self.int_literal(window=True)], prec=P_UNARY, cat='I')
+                if self.chance(0.3):
+                    e = Node('cast', extra=self.pick(['long long', 'unsigned long long']), ch=[e], prec=P_UNARY, cat='I')
             if r < 0.1 and e.k not in ('bin',):
                 # integer cast of a floating literal
                 e = Node('cast', extra=self.pick(['int', 'long long', 'unsigned']), ch=[self.float_literal()],
